@@ -108,6 +108,59 @@ def polarity(tree, stmt, within):
     return "-"
 
 
+def _hoisted_defs(fnode):
+    """Locals with exactly one binding in the function whose value is built
+    from self attributes, constants and other such locals only (a hoisted
+    loop-invariant such as `decay = (self.w - 1) / self.w`)."""
+    stores = {}
+    for n in ast.walk(fnode):
+        if isinstance(n, ast.Name) and isinstance(n.ctx, ast.Store):
+            stores[n.id] = stores.get(n.id, 0) + 1
+    for a in fnode.args.args + fnode.args.kwonlyargs:
+        stores[a.arg] = stores.get(a.arg, 0) + 1
+    defs = {}
+    for n in ast.walk(fnode):
+        if isinstance(n, ast.Assign) and len(n.targets) == 1 and isinstance(n.targets[0], ast.Name) \
+                and stores.get(n.targets[0].id) == 1:
+            defs[n.targets[0].id] = n.value
+    ok = {}
+    changed = True
+    while changed:
+        changed = False
+        for k, v in defs.items():
+            if k in ok:
+                continue
+            good = True
+            for x in ast.walk(v):
+                if isinstance(x, ast.Name) and x.id not in ("self", "np") and x.id not in ok:
+                    good = False
+                if isinstance(x, ast.Call):
+                    good = False
+            if good:
+                ok[k] = v
+                changed = True
+    return ok
+
+
+class _Inline(ast.NodeTransformer):
+    def __init__(self, defs):
+        self.defs = defs
+
+    def visit_Name(self, n):
+        if isinstance(n.ctx, ast.Load) and n.id in self.defs:
+            import copy as _c
+            return self.visit(_c.deepcopy(self.defs[n.id]))
+        return n
+
+
+def inline_hoisted(fnode, e, keep=()):
+    defs = {k: v for k, v in _hoisted_defs(fnode).items() if k not in keep}
+    if not defs:
+        return e
+    import copy as _c
+    return ast.fix_missing_locations(_Inline(defs).visit(_c.deepcopy(e)))
+
+
 def update_ops(fnode, targets, within=None):
     """{(target, op, normalised rhs, polarity)} for updates of the given state
     variables (names or 'self.attr') inside `within` (default: whole fn)."""
@@ -118,11 +171,12 @@ def update_ops(fnode, targets, within=None):
         if isinstance(n, ast.AugAssign):
             b = _tname(n.target)
             if b in targets:
-                out.add((b, type(n.op).__name__ + "=", norm_rhs(n.value, {b}), polarity(tree, n, region)))
+                out.add((b, type(n.op).__name__ + "=", norm_rhs(inline_hoisted(fnode, n.value, targets), {b}),
+                         polarity(tree, n, region)))
         elif isinstance(n, ast.Assign) and len(n.targets) == 1:
             b = _tname(n.targets[0])
             if b in targets and (b in names_in(n.value) or (b.startswith("self.") and b in names_in(n.value))):
-                out.add((b, "=", norm_rhs(n.value, {b}), polarity(tree, n, region)))
+                out.add((b, "=", norm_rhs(inline_hoisted(fnode, n.value, targets), {b}), polarity(tree, n, region)))
         elif isinstance(n, ast.Expr) and isinstance(n.value, ast.Call) and isinstance(n.value.func, ast.Attribute) \
                 and n.value.func.attr in ("append", "extend"):
             b = _tname(n.value.func.value)
